@@ -124,8 +124,9 @@ class Reporter:
         for where, msg, f in self.gaps:
             if not f:
                 out_lines.append(
-                    f"NOTE property={self.pid} {where}: not evaluated "
-                    f"(construct outside the shape interpreter): {msg}")
+                    f"NOTE property={self.pid} {where}: not judged on this "
+                    f"tree (idiom not recognised / construct unsupported): "
+                    f"{msg}")
         self.extra["analysis_gaps"] = [f"{w}: {m}" for w, m, f in self.gaps]
         self._write_evidence(len(new), matched)
         holds = sum(1 for r in self.records if r["verdict"] == "holds")
